@@ -23,11 +23,21 @@ fn words(max: usize) -> Vec<String> {
 }
 
 fn main() {
-    let mut shapes = words(4);
+    let mut plain = words(4);
     for w in [
         "ABABA", "AAAAA", "NAAAA", "AAAAN", "BNBNB", "ABNABN", "AABBNN", "NNNNNN", "ABABABA", "BBBBBBN", "NABABAB", "ABNABNAB", "AAAABBBB", "NBNBNBNB",
     ] {
-        shapes.push(w.to_string());
+        plain.push(w.to_string());
+    }
+    let mut shapes: Vec<(String, &str)> = plain.iter().map(|w| (w.clone(), "plain")).collect();
+    // the same members declared in other syntactic ways (decorations that must not change the meaning)
+    for dec in ["field-attributes", "struct-attributes", "visibility", "type-paths", "raw-identifiers", "macro-template"] {
+        for w in words(3) {
+            shapes.push((w, dec));
+        }
+        for w in ["ABNAB", "NNABABBA"] {
+            shapes.push((w.to_string(), dec));
+        }
     }
     let mut s = String::new();
     for (mac, suffix, probe_a, probe_b, nested, env_ty, trait_path) in [
@@ -35,33 +45,75 @@ fn main() {
         ("MarketAgentSet", "M", "MProbeA", "MProbeB", "NestedM", "bourse_de::MarketEnv<2, 3>", "bourse_de::agents::MarketAgentSet"),
     ] {
         writeln!(s, "#[derive({mac})]\npub struct {nested} {{ pub x: {probe_a}, pub y: {probe_b} }}").unwrap();
-        for (i, w) in shapes.iter().enumerate() {
+        for (i, (w, dec)) in shapes.iter().enumerate() {
             let name = format!("Shape{suffix}{i}");
-            writeln!(s, "#[derive({mac})]\npub struct {name} {{").unwrap();
-            for (j, k) in w.chars().enumerate() {
-                let ty = match k {
+            let fname = |j: usize| -> String {
+                if *dec == "raw-identifiers" {
+                    format!("r#{}", ["type", "match", "fn", "loop", "move", "ref", "mod", "use"][j])
+                } else {
+                    format!("f{j}")
+                }
+            };
+            let ty_of = |k: char| -> &str {
+                match k {
                     'A' => probe_a,
                     'B' => probe_b,
                     _ => nested,
-                };
-                writeln!(s, "    pub f{j}: {ty},").unwrap();
+                }
+            };
+            match *dec {
+                "macro-template" => {
+                    // the struct comes out of a macro_rules! template that takes the member types as `ty` fragments
+                    writeln!(s, "macro_rules! tmpl_{name} {{ ($n:ident; $($f:ident : $t:ty),*) => {{ #[derive({mac})] pub struct $n {{ $(pub $f: $t),* }} }} }}").unwrap();
+                    let fields: Vec<String> = w.chars().enumerate().map(|(j, k)| format!("f{j}: {}", ty_of(k))).collect();
+                    writeln!(s, "tmpl_{name}!({name}; {});", fields.join(", ")).unwrap();
+                }
+                _ => {
+                    match *dec {
+                        "struct-attributes" => writeln!(s, "#[allow(dead_code)]\n#[derive({mac})]\n#[doc = \"decorated\"]\n#[allow(clippy::all)]\npub struct {name} {{").unwrap(),
+                        _ => writeln!(s, "#[derive({mac})]\npub struct {name} {{").unwrap(),
+                    }
+                    for (j, k) in w.chars().enumerate() {
+                        let ty = ty_of(k);
+                        match *dec {
+                            "field-attributes" => {
+                                let attr = ["#[allow(dead_code)]", "#[rustfmt::skip]", "/// documented member", "#[cfg(all())]", "#[doc(hidden)]", "#[cfg_attr(all(), allow(unused))]", "#[allow(clippy::skip)]", "#[rustfmt::skip]"][(j + i) % 8];
+                                writeln!(s, "    {attr}\n    pub f{j}: {ty},").unwrap();
+                            }
+                            "visibility" => {
+                                let vis = ["", "pub(crate) ", "pub(super) ", "pub(in crate::c20) "][(j + i) % 4];
+                                writeln!(s, "    {vis}f{j}: {ty},").unwrap();
+                            }
+                            "type-paths" => {
+                                let t2 = match (j + i) % 3 {
+                                    0 => format!("crate::c20::{ty}"),
+                                    1 => format!("self::{ty}"),
+                                    _ => format!("({ty})"),
+                                };
+                                writeln!(s, "    pub f{j}: {t2},").unwrap();
+                            }
+                            _ => writeln!(s, "    pub {}: {ty},", fname(j)).unwrap(),
+                        }
+                    }
+                    writeln!(s, "}}").unwrap();
+                }
             }
-            writeln!(s, "}}").unwrap();
+            writeln!(s, "#[allow(clippy::all)]").unwrap();
             // constructor: tags in flattened declaration order
             writeln!(s, "fn make_{name}(log: &Log) -> {name} {{\n    {name} {{").unwrap();
             let mut tag = 1;
             for (j, k) in w.chars().enumerate() {
                 match k {
                     'A' => {
-                        writeln!(s, "        f{j}: {probe_a}::new({tag}, log),").unwrap();
+                        writeln!(s, "        {}: {probe_a}::new({tag}, log),", fname(j)).unwrap();
                         tag += 1;
                     }
                     'B' => {
-                        writeln!(s, "        f{j}: {probe_b}::new({tag}, log),").unwrap();
+                        writeln!(s, "        {}: {probe_b}::new({tag}, log),", fname(j)).unwrap();
                         tag += 1;
                     }
                     _ => {
-                        writeln!(s, "        f{j}: {nested} {{ x: {probe_a}::new({tag}, log), y: {probe_b}::new({}, log) }},", tag + 1).unwrap();
+                        writeln!(s, "        {}: {nested} {{ x: {probe_a}::new({tag}, log), y: {probe_b}::new({}, log) }},", fname(j), tag + 1).unwrap();
                         tag += 2;
                     }
                 }
@@ -73,16 +125,17 @@ fn main() {
             writeln!(s, "fn hand_{name}<R: rand::RngCore>(a: &mut {name}, env: &mut {env_ty}, rng: &mut R) {{").unwrap();
             for (j, k) in w.chars().enumerate() {
                 match k {
-                    'A' | 'B' => writeln!(s, "    a.f{j}.update(env, rng);").unwrap(),
-                    _ => writeln!(s, "    a.f{j}.x.update(env, rng);\n    a.f{j}.y.update(env, rng);").unwrap(),
+                    'A' | 'B' => writeln!(s, "    a.{}.update(env, rng);", fname(j)).unwrap(),
+                    _ => writeln!(s, "    a.{0}.x.update(env, rng);\n    a.{0}.y.update(env, rng);", fname(j)).unwrap(),
                 }
             }
             writeln!(s, "}}").unwrap();
         }
         // registry
         writeln!(s, "pub fn run_all_{suffix}(seeds: &[u64], f: &mut dyn FnMut(&str, &str, u64, Trace, Trace)) {{").unwrap();
-        for (i, w) in shapes.iter().enumerate() {
+        for (i, (w, dec)) in shapes.iter().enumerate() {
             let name = format!("Shape{suffix}{i}");
+            let w = if *dec == "plain" { w.clone() } else { format!("{w} [{dec}]") };
             writeln!(
                 s,
                 "    for &seed in seeds {{ let d = trace_{suffix}(seed, make_{name}, derived_{name}); let h = trace_{suffix}(seed, make_{name}, hand_{name}); f(\"{mac}\", \"{w}\", seed, d, h); }}"
